@@ -16,7 +16,7 @@ CHECKS = {
    note=TRUST + "regexp is a trusted stub (FindStringSubmatchIndex returns nil or in-range ordered index pairs, unmatched groups -1); BackrefRegex and lexer.New carry assumed contracts (New is covered by a bounded stand-in under C03); the generated lexer template is not covered.",
    ref="DESIGN.md section 4, C07"),
  "C04": dict(level="proof",
-   text="Position.Advance is proved to map an exact (offset,line,column) position of an input text to the exact position after the span, from eight trusted string axioms applied as ground instances; StatefulLexer.Next is proved (for every input text given as a ghost parameter) to keep data == input[offset:], to emit tokens whose value is exactly input[pos.Offset : pos.Offset+len(value)] with exact line/column and the caller's filename, contiguous with the lexer position, monotone offsets, and EOF at len(input); LexString establishes the invariant.",
+   text="Position.Advance is proved to map an exact (offset,line,column) position of an input text to the exact position after the span, from eight trusted string axioms applied as ground instances; StatefulLexer.Next is proved (for every input text given as a ghost parameter) to keep data == input[offset:], to emit tokens whose value is exactly input[pos.Offset : pos.Offset+len(value)] with exact line/column and the caller's filename, contiguous with the lexer position, monotone offsets, and EOF at len(input); LexString establishes the invariant. The text/scanner-based lexer is covered by a bounded stand-in (all inputs up to 4/5 bytes over 13 bytes incl. invalid UTF-8 and NUL, four entry points).",
    note=TRUST + "String axioms (count/lastIndex/runeCount over concatenation) are trusted and conformance-tested in the thorough tier; spans produced by regexp are assumed to end on rune boundaries (regexpSpanCut). Strictly-increasing offsets and 'concatenation equals input' over a whole run follow by induction over calls from the per-call contract (paper lemma). text/scanner-based and generated lexers are not covered.",
    ref="DESIGN.md section 4, C04"),
  "C03": dict(level="proof",
@@ -27,34 +27,34 @@ CHECKS = {
 
 CHECKS.update({
  "C13": dict(level="proof",
-   text="The lookahead mechanism is under contract: parseContext.Stop returns exactly (lookahead >= 0 && branch.cursor - cursor > lookahead) (so an attempt is abandoned only if it consumed no more than the lookahead, and the decision is monotone in the lookahead), with machine-integer overflow obligations on the threshold arithmetic; on true it has adopted the branch, on false the context is untouched. Every composite node (group, disjunction, sequence, capture, strct, union) is proved to propagate a committed error and to keep cursors monotone, so that an enclosing Stop sees it again.",
+   text="The lookahead mechanism is under contract: parseContext.Stop returns exactly (lookahead >= 0 && branch.cursor - cursor > lookahead) (so an attempt is abandoned only if it consumed no more than the lookahead, and the decision is monotone in the lookahead), with machine-integer overflow obligations on the threshold arithmetic; on true it has adopted the branch, on false the context is untouched. Every composite node (group, disjunction, sequence, capture, strct, union) is proved to propagate a committed error and to keep cursors monotone, so that an enclosing Stop sees it again. UseLookahead's closure is proved to store the value it was given unchanged (negative and > MaxLookahead included) and Build to leave the lookahead the options chose untouched. The whole-run statement is additionally decided within a bound by the grammar-meaning differential (bounded stand-in in the same evidence file, never counted as proved): every small grammar x input x lookahead is run through the real parser and through a reference interpreter of the ordered-choice, bounded-backtracking meaning written from the property text.",
    note=TRUST + "The step from these per-function contracts to 'a parse that succeeded with k succeeds identically with k' > k' (only Stop reads lookahead; every decision that was false for k is false for k') is a paper lemma, listed as unchecked.",
    ref="DESIGN.md section 4, C13"),
  "C02": dict(level="proof",
-   text="Every grammar node's Parse is proved against one interface contract: deferred captures are only ever appended, every capture a node adds targets the struct it was asked to fill, a non-match leaves position and captures untouched, branches are fresh copies with an empty capture list (Branch), are adopted only by Accept/Stop, and negation/lookahead groups never adopt their branch. strct.Parse is proved to apply exactly the captures deferred during its own parse (Apply(from)) and to leave the enclosing production's captures deferred.",
+   text="Every grammar node's Parse is proved against one interface contract: deferred captures are only ever appended, every capture a node adds targets the struct it was asked to fill, a non-match leaves position and captures untouched, branches are fresh copies with an empty capture list (Branch), are adopted only by Accept/Stop, and negation/lookahead groups never adopt their branch. strct.Parse is proved to apply exactly the captures deferred during its own parse (Apply(from)) and to leave the enclosing production's captures deferred. The whole-run statement is additionally decided within a bound by the grammar-meaning differential (bounded stand-in in the same evidence file, never counted as proved): every small grammar x input x lookahead is run through the real parser and through a reference interpreter of the ordered-choice, bounded-backtracking meaning written from the property text.",
    note=TRUST + "reflect is opaque: 'written into the AST' is modelled by which contextFieldSet entries reach setField; the grammar graph's well-formedness (wf) is axiomatised (established by the tag parser, C19). Parseable/custom productions are user code with an assumed contract.",
    ref="DESIGN.md section 4, C02"),
  "C10": dict(level="proof",
-   text="Token references and literals are proved to match exactly the first token from the raw cursor that is EOF, satisfies the node's own predicate (type equality; typed/case-folded literal comparison) or is not elided, to consume through that token with FastForward and to leave everything untouched otherwise; negation consumes exactly one non-elided token with Next; PeekAny/FastForward/Next/Peek contracts (C12) make every other observation a function of the non-elided sequence.",
+   text="Token references and literals are proved to match exactly the first token from the raw cursor that is EOF, satisfies the node's own predicate (type equality; typed/case-folded literal comparison) or is not elided, to consume through that token with FastForward and to leave everything untouched otherwise; negation consumes exactly one non-elided token with Next; PeekAny/FastForward/Next/Peek contracts (C12) make every other observation a function of the non-elided sequence. The whole-run statement is additionally decided within a bound by the grammar-meaning differential (bounded stand-in in the same evidence file, never counted as proved): every small grammar x input x lookahead is run through the real parser and through a reference interpreter of the ordered-choice, bounded-backtracking meaning written from the property text.",
    note=TRUST + "The closure passed to PeekAny is linked to its body by a generated axiom; strings.EqualFold is an uninterpreted function. The whole-run statement (two inputs with equal non-elided sequences drive identical runs) is a paper lemma. Open known finding F6 (bounded check 'capture token run', printed as KNOWN-FINDING on every run): capture token runs start at the raw cursor, so a lexer.Token / []lexer.Token field may begin with an elided token.",
    ref="DESIGN.md section 4, C10"),
  "C11": dict(level="proof",
-   text="strct.Parse is proved to record Pos from the first non-elided token at the node's start (&tokens[nextCursor] at entry), EndPos from the raw token just after the last consumed one (&tokens[rawCursor] after the body) and Tokens == tokens[start:rawCursor] with start the raw cursor at entry and start <= end (Range never panics); capture.Parse hands Defer exactly tokens[start:rawCursor]; cursor monotonicity of every node (interface contract) gives nesting and ordering of child runs.",
+   text="strct.Parse is proved to record Pos from the first non-elided token at the node's start (&tokens[nextCursor] at entry), EndPos from the raw token just after the last consumed one (&tokens[rawCursor] after the body) and Tokens == tokens[start:rawCursor] with start the raw cursor at entry and start <= end (Range never panics); capture.Parse hands Defer exactly tokens[start:rawCursor]; cursor monotonicity of every node (interface contract) gives nesting and ordering of child runs. The reflection half (which of Pos/EndPos/Tokens a node declares, with which convertible type, directly or embedded) is explored by the bounded node-shapes stand-in.",
    note=TRUST + "The reflection-based field writes (maybeInject*) are opaque; what is proved is the value handed to them. Nesting/disjointness over a whole tree is a paper lemma from monotonicity.",
    ref="DESIGN.md section 4, C11"),
  "C06": dict(level="proof",
-   text="Panic-freedom (index, slice, nil, type-assertion, explicit panic obligations) and error shape for the runtime functions under contract: all PeekingLexer operations, StatefulLexer.Next, every node's Parse, parseContext methods, parseInto/parseOne/getElidedTypes: a non-nil error is a participle.Error or comes from user code (errOK, carried through deepestError bookkeeping), lexer token positions are exact (shared with C04), the lexing functions are non-recursive (bounded stack).",
+   text="Panic-freedom (index, slice, nil, type-assertion, explicit panic obligations) and error shape for the runtime functions under contract: all PeekingLexer operations, StatefulLexer.Next, every node's Parse, parseContext methods, parseInto/parseOne/getElidedTypes: a non-nil error is a participle.Error or comes from user code (errOK, carried through deepestError bookkeeping), lexer token positions are exact (shared with C04), the lexing functions are non-recursive (bounded stack). FormatError, lexer.formatError and the Error() methods are proved to produce [file:]line:col: + space + message whenever a position is known. The text/scanner-based lexer's errors (located, consistent line/column) are explored by a bounded stand-in.",
    note=TRUST + "Not decided: recursion depth of the parser proper and 'never hangs' beyond the per-loop measures. Assumed: the root type's node exists in the parser's type table and is well-formed; disjunction's documented 'did not progress' panic is excluded by the property's premise; Build validates Elide() names (by inspection).",
    ref="DESIGN.md section 4, C06"),
  "C01": dict(level="proof",
-   text="Operator-local obligations only: leaves match exactly their predicate (C10); sequence runs children in list order on the same context, first-child non-match leaves everything untouched, a later one is an UnexpectedTokenError; disjunction/union try alternatives in index order on fresh branches and adopt exactly the first success; group iterates on fresh branches; negation/lookahead test on a branch (negation then takes exactly one token); capture defers exactly once iff its child produced a value; Stop's exact threshold; parseOne's trailing-token rule. The global equality 'parse result == denotational meaning' is NOT claimed.",
+   text="Operator-local obligations only: leaves match exactly their predicate (C10); sequence runs children in list order on the same context, first-child non-match leaves everything untouched, a later one is an UnexpectedTokenError; disjunction/union try alternatives in index order on fresh branches and adopt exactly the first success; group iterates on fresh branches; negation/lookahead test on a branch (negation then takes exactly one token); capture defers exactly once iff its child produced a value; Stop's exact threshold; parseOne's trailing-token rule. The global equality 'parse result == denotational meaning' is NOT claimed. Build is proved to leave the lookahead and lexer the options chose in force, parseModifier to wrap its operand in a fresh group of exactly the modifier's mode without altering the operand, a '!' group to succeed only after consuming input, setCaseInsensitiveTokens to mark every token type whose symbol was declared case-insensitive. The whole-run statement is additionally decided within a bound by the grammar-meaning differential (bounded stand-in in the same evidence file, never counted as proved): every small grammar x input x lookahead is run through the real parser and through a reference interpreter of the ordered-choice, bounded-backtracking meaning written from the property text.",
    note=TRUST + "Composition of the operator contracts into the whole-grammar meaning is not machine-checked; setField/conform value semantics are under C17. Open known finding F6 (bounded check 'capture token run'): lexer.Token / []lexer.Token captures start at a preceding elided token.",
    ref="DESIGN.md section 4, C01"),
 })
 
 CHECKS.update({
  "C15": dict(level="proof",
-   text="The plumbing of every entry point is under contract: Parse/ParseString/ParseBytes hand the caller's filename and text to the definition's Lex/LexString/LexBytes and the resulting lexer plus the caller's options to parse; parse upgrades exactly that lexer and forwards the options to ParseFromLexer; ParseFromLexer builds the context from the parser's lookahead and case-insensitive table, and on every return path (including a Parseable root) leaves the caller's lexer at the position the parse reached; Parser.Lex consumes the lexer of the same definition; the mapping definition wraps the inner lexer with the same mapper; printTrace writes nothing but ctx.depth (so tracing cannot change results).",
+   text="The plumbing of every entry point is under contract: Parse/ParseString/ParseBytes hand the caller's filename and text to the definition's Lex/LexString/LexBytes and the resulting lexer plus the caller's options to parse; parse upgrades exactly that lexer and forwards the options to ParseFromLexer; ParseFromLexer builds the context from the parser's lookahead and case-insensitive table, and on every return path (including a Parseable root) leaves the caller's lexer at the position the parse reached; Parser.Lex consumes the lexer of the same definition; the mapping definition wraps the inner lexer with the same mapper; printTrace writes nothing but ctx.depth (so tracing cannot change results). StatefulDefinition.Lex is proved to hand LexString exactly the text it read under the caller's filename.",
    note=TRUST + "User-supplied Definitions are assumed to make Lex/LexString/LexBytes agree (StatefulDefinition.Lex == LexString of the reader's content is by inspection); the elision list passed to Upgrade is the result of getElidedTypes (structural). Equality of ASTs across entry points follows because each reduces to the same ParseFromLexer call (paper lemma).",
    ref="DESIGN.md section 4, C15"),
  "C17": dict(level="proof",
@@ -62,11 +62,11 @@ CHECKS.update({
    note=TRUST + "reflect and strconv are opaque stubs (function symbols); type assertions on reflection values in setField are assumed. Open known finding F6 (bounded check 'capture token run', KNOWN-FINDING on every run): the position of a conversion error is that of a preceding elided token.",
    ref="DESIGN.md section 4, C17"),
  "C18": dict(level="proof",
-   text="unquote is proved, by a loop invariant over a recursive spec function transcribed from strconv.Unquote, to return the raw body for back-quoted text and otherwise the concatenation of the characters strconv.UnquoteChar decodes (single bytes stay single bytes), to fail exactly when UnquoteChar fails or the text is shorter than two bytes, and to terminate; Unquote's and Upper's mappers change only Value (type and position untouched) and report errors located at the token; the mapping lexer calls the mapper exactly once per inner token in order; Build's combined mapper applies the all-token mappers then the token type's mappers, each once, on every token.",
+   text="unquote is proved, by a loop invariant over a recursive spec function transcribed from strconv.Unquote, to return the raw body for back-quoted text and otherwise the concatenation of the characters strconv.UnquoteChar decodes (single bytes stay single bytes), to fail exactly when UnquoteChar fails or the text is shorter than two bytes, and to terminate; Unquote's and Upper's mappers change only Value (type and position untouched) and report errors located at the token; the mapping lexer calls the mapper exactly once per inner token in order; Build's combined mapper applies the all-token mappers then the token type's mappers, each once, on every token. A change that makes the contracts unbindable is still caught with a concrete input by the mapper-order probe (untyped mappers first, then the token type's own, in registration order, 0-5 untyped mappers).",
    note=TRUST + "strconv.UnquoteChar and strings.ToUpper are function stubs; that strconv.Quote output is accepted by this decoding is strconv's own inverse property (assumed). User mappers are assumed to be functions of their token.",
    ref="DESIGN.md section 4, C18"),
  "C19": dict(level="proof",
-   text="Panic-freedom of the struct-tag front end for well-formedness: every parse function of grammar.go is proved to return, on success, a node whose child slots are all non-nil and well-formed (wfc), so that no nil operand reaches visit/validate/buildEBNF/Parse (this is where 'modifier, capture or negation applied to nothing' is rejected); index and slice expressions of GetField, textScannerTransform and the tag lexer are in bounds; the scanner error callback keeps 'literal not terminated'.",
+   text="Panic-freedom of the struct-tag front end for well-formedness: every parse function of grammar.go is proved to return, on success, a node whose child slots are all non-nil and well-formed (wfc), so that no nil operand reaches visit/validate/buildEBNF/Parse (this is where 'modifier, capture or negation applied to nothing' is rejected); index and slice expressions of GetField, textScannerTransform and the tag lexer are in bounds; the scanner error callback keeps 'literal not terminated'. parseType and indirectType are under contract too: reflect's own preconditions (Elem only on Array/Chan/Map/Pointer/Slice kinds, Implements only with an interface type) are obligations. Totality over tag texts and field types is additionally explored by the bounded Build-totality stand-in (307 000 struct types built with reflect.StructOf against a reference recogniser of the documented tag syntax, plus a zoo of 42 field types; bounded, never counted as proved).",
    note=TRUST + "structLexer.Peek/Next, parseType and indirectType carry assumed contracts; wfc introduction rules and the list-segment rules for sequences are axioms; termination of the recursive-descent tag parser and completeness ('every documented grammar builds') are not decided.",
    ref="DESIGN.md section 4, C19"),
 })
@@ -75,18 +75,18 @@ BOUNDED_TECH = "bounded stand-in of a contract the VC generator cannot reach: th
 CHECKS.update({
  "C08": dict(level="exploration", technique=BOUNDED_TECH,
    text="Bounded stand-in (not proof): validate() is compared with the specification 'some reachable production can re-enter itself before consuming a token' (nullable / first-position sets computed as least fixed points, with ~ and lookahead bodies entered without consuming) on every grammar of a finite family of node graphs built directly in-package: tens of thousands of grammars, exhaustively. isLeftRecursive steers a closure-based traversal over a cyclic graph and is outside the VC generator's reach.",
-   note="Bound: one production with <= 4 (thorough 5) nodes, two productions with <= 3 nodes each (thorough 3 and 4), over literal, production reference, sequence, choice, ? * + !, ~, (?= ), (?! ), capture. The consequence 'recursion depth bounded by input length' is a paper lemma. The oracle is an independent fixed-point formulation.",
+   note="Bound: one production with <= 4 (thorough 5) nodes, two productions with <= 3 nodes each (thorough 3 and 4), over literal, production reference, sequence, choice, ? * + !, ~, (?= ), (?! ), capture, redundant parentheses. The consequence 'recursion depth bounded by input length' is a paper lemma. The oracle is an independent fixed-point formulation.",
    ref="DESIGN.md section 4, C08"),
  "C14": dict(level="exploration", technique=BOUNDED_TECH,
    text="Bounded stand-in (not proof): for every grammar of the same finite family (plus a literal that needs escaping) Parser.String() is parsed with the ebnf package; root first, each reachable production defined once, literal / reference / operator counts equal to the grammar's, and print(parse(text)) parses to an equal tree. Language membership and tree equality after a print/parse cycle are not first-order contracts over the printer's code.",
-   note="Bound as for C08 (two productions: <= 2 and <= 3 nodes; thorough: one production <= 5, two <= 3 and <= 3). Union / custom / parseable nodes are not in the family.",
+   note="Bound as for C08 (two productions: <= 2 and <= 3 nodes; thorough: one production <= 5, two <= 3 and <= 3). The family includes redundant parentheses; seven further grammars are built with Build from struct tags (union root, union field, anonymous and embedded struct types, ( x* )?, Parseable and custom productions) and checked for the same criteria.",
    ref="DESIGN.md section 4, C14"),
  "C16": dict(level="exploration", technique=BOUNDED_TECH,
    text="Bounded stand-in (not proof): for every rule map of a finite family (all action kinds, include nesting, return, back-references, names and patterns with quotes, backslashes, <>& and non-ASCII) the rule set and the built definition are marshalled to JSON, unmarshalled and rebuilt; rule sets must be structurally equal, symbol tables equal, and token streams / errors equal on 12 inputs. encoding/json's behaviour cannot usefully be axiomatised for contracts.",
    note="Bound: states Root (1-2 rules over a 9-rule alphabet; thorough 16), A (1-3 rules over a reduced alphabet), thorough adds B. That equal compiled tables give equal behaviour on every input follows from StatefulLexer.Next's contract (C03), which is proved.",
    ref="DESIGN.md section 4, C16"),
  "C09": dict(level="other", technique="frame obligations from the contract framework (static, per write site) + bounded coherence check of the one shared cache; no schedule is explored",
-   text="This family has no notion of interleaving; the schedule quantifier is not decided. What is decided is the sufficient condition the promise rests on: in every function reachable from Parse*, Lex*, String, ebnf.Parse*, the lexers' Next and the actions, each store / map update / append / copy / delete has the obligation 'the target is allocated in this function or is per-call state, not (reachable from) a shared Parser, Definition, grammar node or package-level value'. The one shared written structure, the back-reference cache (a sync.Map), is checked by a bounded stand-in for coherence: what it returns is independent of what was asked before.",
+   text="This family has no notion of interleaving; the schedule quantifier is not decided. What is decided is the sufficient condition the promise rests on: in every function reachable from Parse*, Lex*, String, ebnf.Parse*, the lexers' Next and the actions, each store / map update / append / copy / delete has the obligation 'the target is allocated in this function or is per-call state, not (reachable from) a shared Parser, Definition, grammar node or package-level value'. The one shared written structure, the back-reference cache (a sync.Map), is checked by a bounded stand-in for coherence: what it returns is independent of what was asked before. One deductive obligation belongs here too: LexString gives every lexer a freshly allocated state stack (no two lexers of one definition share it).",
    note="Assumed: sync.Map, regexp.Regexp, reflect and text/scanner instances are safe as documented; the provenance classification is intra-procedural and type-based (a write through an interface or into a value handed out by user code is not seen). No data-race detection, no interleavings.",
    ref="DESIGN.md section 4, C09"),
 })
